@@ -15,6 +15,9 @@ import (
 
 const maxAlts = 4096
 
+// altSkip: returned by a lifted function for an alternative that must be left out of the merge
+type altSkip struct{}
+
 func (m *Machine) mkChoice(alts []strAlt) value {
 	// merge equal strings, drop false guards
 	var out []strAlt
@@ -236,7 +239,16 @@ func (m *Machine) liftStr(args []value, f func([]value) value) value {
 	}
 	var rs []res
 	for _, c := range cur {
-		rs = append(rs, res{c.g, f(c.vals)})
+		m.liftGuard = c.g
+		v := f(c.vals)
+		if _, skip := v.(altSkip); skip {
+			continue
+		}
+		rs = append(rs, res{c.g, v})
+	}
+	m.liftGuard = nil
+	if len(rs) == 0 {
+		return altSkip{}
 	}
 	return m.mergeAlts(len(rs), func(i int) (*Term, value) { return rs[i].g, rs[i].v })
 }
@@ -657,6 +669,25 @@ func (m *Machine) strEq(a, b value) value {
 		return m.simp(m.strEqConst(b.(*SymStr), as))
 	}
 	x, y := a.(*SymStr), b.(*SymStr)
+	if x == y {
+		return true
+	}
+	if xa, ok := m.altsOfCheap(x); ok {
+		if ya, ok := m.altsOfCheap(y); ok {
+			// equality of two guarded choices: some string is selected on both sides
+			gb := map[string][]*Term{}
+			for _, al := range ya {
+				gb[al.s] = append(gb[al.s], al.g)
+			}
+			var ts []*Term
+			for _, al := range xa {
+				if gs, ok := gb[al.s]; ok {
+					ts = append(ts, m.tb.And(al.g, m.tb.Or(gs...)))
+				}
+			}
+			return m.simp(m.tb.Or(ts...))
+		}
+	}
 	if sameShape(x, y) {
 		var ts []*Term
 		for i, p := range x.parts {
